@@ -63,6 +63,7 @@ type mon struct {
 	progress   int64 // atomic: every monitor call
 	noiseSeed  uint64
 	oneCalls   uint64
+	pre        map[uint64]bool // goroutines that existed before the scenario (set before it starts)
 }
 
 func newMon(seed uint64) *mon {
@@ -284,7 +285,7 @@ func (m *mon) hold(tid uint64, mine, other string) interface{} {
 	m.mu.Unlock()
 	parked := 0
 	for _, g := range c11kit.Dump() {
-		if g.BlockedInEcalMutex() {
+		if !m.pre[g.ID] && g.BlockedInEcalMutex() {
 			parked++
 		}
 	}
@@ -923,6 +924,7 @@ func randomScenario(c *core.Ctx, stream string, idx int) {
 	defer c.End(0)
 	m := newMon(r.U64())
 	pre := goroutineSet()
+	m.pre = pre
 	env, err := c11kit.NewEnv("c12", p.src, workers, false)
 	if err != nil {
 		c.Inconclusive("generated program did not load: "+err.Error(), stream, idx, map[string]interface{}{"program": p.src})
@@ -1047,6 +1049,7 @@ func exitScenario(c *core.Ctx, stream string, idx int) {
 	defer c.End(0)
 	m := newMon(r.U64())
 	pre := goroutineSet()
+	m.pre = pre
 	env, err := c11kit.NewEnv("c12", p.src, 2, false)
 	if err != nil {
 		c.Inconclusive("generated program did not load: "+err.Error(), stream, idx, map[string]interface{}{"program": p.src})
@@ -1115,6 +1118,7 @@ func indepScenario(c *core.Ctx, stream string, idx int) {
 	defer c.End(0)
 	m := newMon(r.U64())
 	pre := goroutineSet()
+	m.pre = pre
 	env, err := c11kit.NewEnv("c12", p.src, 2, false)
 	if err != nil {
 		c.Inconclusive("program did not load: "+err.Error(), stream, idx, map[string]interface{}{"program": p.src})
